@@ -91,13 +91,13 @@ def cases(tier, seed):
             N = [rng.randint(2, 12 if d <= 3 else 5) for _ in range(d)]
             if dn.prod(N) <= 600:
                 break
-        for prec in (None, 'c', 'r'):
-            if not T and (i + (0 if prec is None else (1 if prec == 'c' else 2))) % 2:
+        for pi, prec in enumerate((None, 'c', 'r')):
+            if not T and (i // 2 + pi) % 2:
                 continue
-            for j in range(k if prec is None else 1):
+            for j in range(k if prec is None else 2):
                 cs.append({'gen': 'solve', 'routine': 'amen_solve', 'cls': cls, 'N': N, 'RB': gens.rank_profile(rng, d, 'rand', 2 if cls == 'spd' else 3), 'Rb': gens.rank_profile(rng, d, 'rand', 3),
                            'rhs': ['random', 'image'][i % 2], 'cfac': 10 ** rng.uniform(-0.3, 1.5), 'shift': [0.0, 0.1][(i // 3) % 2], 'eps': 10 ** rng.uniform(-9, -3), 'prec': prec,
-                           'max_full': [500, 0][(i + j) % 2], 'x0': ['none', 'user'][(i // 2 + j) % 2], 'vseed': rng.randrange(2 ** 40), 'sidx': j})
+                           'max_full': [0, 500][j % 2] if prec is not None else [500, 0][(i + j) % 2], 'x0': ['none', 'user'][(i // 3 + j + pi) % 2], 'vseed': rng.randrange(2 ** 40), 'sidx': j})
     for i in range(60 if not T else 500):
         d = rng.choice([1, 2, 2, 3, 3, 4, 5, 6])
         while True:
@@ -107,7 +107,8 @@ def cases(tier, seed):
                 break
         for j in range(k):
             cs.append({'gen': 'matvec', 'routine': 'fast_matvec', 'M': M, 'N': N, 'RA': gens.rank_profile(rng, d, 'rand', 4), 'RB': gens.rank_profile(rng, d, 'rand', 4), 'RG': gens.rank_profile(rng, d, 'rand', 4),
-                       'eps': 10 ** rng.uniform(-11, -2), 'guess': ['none', 'user'][(i + j) % 2], 'vals': ['gauss', 'decay'][i % 2], 'vseed': rng.randrange(2 ** 40), 'sidx': j})
+                       'eps': 10 ** rng.uniform(-11, -2), 'guess': ['none', 'user'][(i + j) % 2], 'vals': ['gauss', 'decay'][i % 2], 'vseed': rng.randrange(2 ** 40), 'sidx': j,
+                       'dtype': 'c128' if i % 3 == 2 else 'f64'})
     return cs
 
 
@@ -215,7 +216,7 @@ def run_matvec(case, ctx, cnt):
     from . import c11
     g = gens.tgen(case['vseed'])
     case = dict(case)
-    case['dtype'] = 'f64'
+    case.setdefault('dtype', 'f64')
     M, N, eps = case['M'], case['N'], case['eps']
     d = len(M)
     A, x = c11.mk(case, g, N, case['RA'], M=M), c11.mk(case, g, N, case['RB'])
@@ -252,6 +253,7 @@ def run_matvec(case, ctx, cnt):
             continue
         err = dn.fro(dy - ref)
         allow = C_EPS * eps * nref + 1e3 * 2.3e-16 * srep
+        ctx.count('dtype:' + case['dtype'])
         if nref > 0:
             ctx.metric('err_over_eps_norm/' + backend, err / (eps * nref) if eps >= 1e-9 else 0.0)
         if not err <= allow:
@@ -262,7 +264,7 @@ def run_matvec(case, ctx, cnt):
         if not diff <= 20 * eps * nref + 2e3 * 2.3e-16 * srep:
             ctx.viol(key + '/clause=backends-disagree', '%s: ||y_cpp - y_py|| = %.3g * eps*||ref||' % (what, diff / (eps * nref) if nref else float('inf')))
         if res['cpp'][1] > 0 or d == 1:
-            ctx.nontrivial(('fast_matvec', tuple(M), tuple(N), tuple(case['RA']), tuple(case['RB']), case['guess'], int(math.log10(eps)), case['sidx']))
+            ctx.nontrivial(('fast_matvec', tuple(M), tuple(N), tuple(case['RA']), tuple(case['RB']), case['guess'], int(math.log10(eps)), case['sidx'], case['dtype']))
         else:
             ctx.count('cpp_path_not_observed')
 
